@@ -392,8 +392,8 @@ const char * vbi_proxy_msg_debug_get_type_str( VBIPROXY_MSG_TYPE type )
 */
 vbi_bool vbi_proxy_msg_read_idle( VBIPROXY_MSG_STATE * pIO )
 {
-   assert((pIO->readOff == 0) || (pIO->readOff == pIO->readLen));
-
+   /* note: a message may have been received only in part (0 < readOff < readLen,
+   ** or readLen still 0 while the header is incomplete): then a read is in progress */
    return (pIO->readOff == 0);
 }
 
@@ -404,8 +404,6 @@ vbi_bool vbi_proxy_msg_write_idle( VBIPROXY_MSG_STATE * pIO )
 
 vbi_bool vbi_proxy_msg_is_idle( VBIPROXY_MSG_STATE * pIO )
 {
-   assert((pIO->readOff == 0) || (pIO->readOff == pIO->readLen));
-
    return ((pIO->writeLen == 0) && (pIO->readOff == 0));
 }
 
